@@ -97,6 +97,8 @@ func ghost_ret_bulkLoad_1() error                          { panic("ghost") }
 
 func ghost_chanSent[K comparable, V any](ch <-chan RefreshResult[K, V]) int { panic("ghost") }
 func ghost_calls_Error() int                                              { panic("ghost") }
+func ghost_calls_doBulkCall() int                                         { panic("ghost") }
+func ghost_calls_getNode() int                                            { panic("ghost") }
 func ghost_calls_doCall() int                                             { panic("ghost") }
 func ghost_calls_refreshKey() int                                         { panic("ghost") }
 func ghost_calls_startCall() int                                          { panic("ghost") }
@@ -809,7 +811,7 @@ func estOf[K comparable](s *sketch[K], k K) uint64 {
 //@   mode seq,itf
 //@   requires g.calls != nil
 //@   modifies ghost_calls(g.calls, key)
-//@   ensures [C08:joins-existing-call] !shouldLoad ==> c != nil
+//@   ensures [C08:joins-existing-call] !shouldLoad ==> c != nil && same(c.key, key)
 //@   ensures [C08:creates-only-when-none-registered] shouldLoad ==> c != nil && ghost_clpCur(g.calls) == nil && ghost_clpNew(g.calls) == c && same(c.key, key) && c.isRefresh == isRefresh && !c.isFake
 //@   ensures [C08:second-caller-does-not-load] ghost_clpCount(g.calls) != pre(ghost_clpCount(g.calls)) && ghost_clpCur(g.calls) != nil ==> !shouldLoad && c == ghost_clpCur(g.calls) && ghost_clpNew(g.calls) == ghost_clpCur(g.calls)
 
@@ -958,12 +960,14 @@ func estOf[K comparable](s *sketch[K], k K) uint64 {
 //@   site Encode: requires [C19:saved-within-bound] true
 
 //@ func (*group).doBulkCall : C10 C08 C01 C11
+//@   counted
 //@   panics
 //@   var kstar K
 //@   requires callsInBulk != nil
 //@   requires [call-map-wf] mapHas(callsInBulk, kstar) ==> callsInBulk[kstar] != nil && same(callsInBulk[kstar].key, kstar)
-//@   modifies *
+//@   modifies map callsInBulk, call::value, call::err, call::isNotFound, $CACHEFX, ghost_calls_bulkLoad(), ghost_calls_afterFinish(), ghost_visited(*)
 //@   callback afterFinish: modifies $CACHEFX
+//@   callback afterFinish: ensures [clock-stable] pre(ghost_clockRead()) ==> ghost_clockRead() && ghost_now() == pre(ghost_now())
 //@   loop 1: invariant [keys] callsInBulk != nil
 //@   loop 2: invariant [map-kept] mapHas(callsInBulk, kstar) == pre(mapHas(callsInBulk, kstar)) && callsInBulk[kstar] == pre(callsInBulk[kstar])
 //@   loop 2: invariant [C10:assign-supplied] ghost_visited(kstar) && mapHas(callsInBulk, kstar) && mapHas(res, kstar) ==> same(callsInBulk[kstar].value, res[kstar])
@@ -972,6 +976,7 @@ func estOf[K comparable](s *sketch[K], k K) uint64 {
 //@   loop 3: invariant [C10:assigned-results-kept] pre(mapHas(callsInBulk, kstar)) ==> (mapHas(res, kstar) ==> same(callsInBulk[kstar].value, res[kstar])) && (!mapHas(res, kstar) ==> callsInBulk[kstar].isNotFound && callsInBulk[kstar].err != nil)
 //@   loop doBulkCall$1:1: invariant [C10:error-to-every-call] ghost_visited(kstar) && mapHas(callsInBulk, kstar) ==> callsInBulk[kstar].err == err && !callsInBulk[kstar].isNotFound
 //@   loop doBulkCall$1:2: invariant [finish] callsInBulk != nil
+//@   ensures [clock-stable] pre(ghost_clockRead()) ==> ghost_clockRead() && ghost_now() == pre(ghost_now())
 //@   ensures [C10:bulk-error-reaches-every-call] err != nil && pre(mapHas(callsInBulk, kstar)) ==> callsInBulk[kstar].err == err && !callsInBulk[kstar].isNotFound
 //@   ensures [C10:bulk-supplied-value-recorded] err == nil && pre(mapHas(callsInBulk, kstar)) && mapHas(ghost_ret_bulkLoad_0[K, V](), kstar) ==> same(callsInBulk[kstar].value, ghost_ret_bulkLoad_0[K, V]()[kstar])
 //@   ensures [C10:bulk-unsupplied-key-is-no-hit] err == nil && pre(mapHas(callsInBulk, kstar)) && !mapHas(ghost_ret_bulkLoad_0[K, V](), kstar) ==> callsInBulk[kstar].isNotFound && callsInBulk[kstar].err != nil
@@ -1006,3 +1011,24 @@ func estOf[K comparable](s *sketch[K], k K) uint64 {
 //@   ensures [C11:nil-if-unconfigured] !c.withRefresh ==> result == nil
 //@   ensures [C11:one-result-per-call] c.withRefresh ==> result != nil && ghost_chanSent(result) == 1
 //@   ensures [C20:quiet] ghost_hits() == pre(ghost_hits()) && ghost_misses() == pre(ghost_misses())
+
+//@ func (*cache).bulkRefreshKeys : C10 C11
+//@   assumed footprint only (its loops over the refresh set are not under contract yet)
+//@   modifies $LOADFX
+//@   ensures [clock-stable] pre(ghost_clockRead()) ==> ghost_clockRead() && ghost_now() == pre(ghost_now())
+
+//@ func (*cache).BulkGet : C10 C08 C20
+//@   var kstar K
+//@   requires cfg(c) && c.singleflight != nil && ghost_calls_load() == 0
+//@   modifies *
+//@   site getNode: requires [C20:each-distinct-key-looked-up-once] !mapHas(result, key) && !mapHas(misses, key)
+//@   site doBulkCall: requires [C10:loader-only-for-missing-keys] len(toLoadCalls) > 0 && (mapHas(toLoadCalls, kstar) ==> mapHas(misses, kstar) && !mapHas(result, kstar))
+//@   loop 1: invariant [result-map] result != nil
+//@   loop 1: invariant [C10:hits-and-misses-disjoint] !(mapHas(result, kstar) && mapHas(misses, kstar))
+//@   loop 1: invariant [C10:no-load-yet] ghost_calls_doBulkCall() == pre(ghost_calls_doBulkCall())
+//@   loop 2: invariant [C10:calls-only-for-misses] result != nil && !(mapHas(result, kstar) && mapHas(misses, kstar)) && (mapHas(toLoadCalls, kstar) ==> mapHas(misses, kstar)) && ghost_calls_doBulkCall() == pre(ghost_calls_doBulkCall())
+//@   loop 2: invariant [call-map-wf] !same(toLoadCalls, misses) && (mapHas(toLoadCalls, kstar) ==> toLoadCalls[kstar] != nil && same(toLoadCalls[kstar].key, kstar))
+//@   loop 2: invariant [misses-get-their-call] ghost_visited(kstar) && mapHas(misses, kstar) ==> misses[kstar] != nil
+//@   loop 3: invariant [C10:failed-or-unsupplied-keys-stay-absent] result != nil && (mapHas(misses, kstar) ==> misses[kstar] != nil) && (mapHas(result, kstar) && mapHas(misses, kstar) ==> misses[kstar].err == nil)
+//@   ensures [C10:loader-at-most-once-per-call] ghost_calls_doBulkCall() == pre(ghost_calls_doBulkCall()) || ghost_calls_doBulkCall() == pre(ghost_calls_doBulkCall())+1
+//@   ensures [C10:result-map-returned] r0 != nil
